@@ -162,6 +162,23 @@ MonStepCx(cx, legacy, m, c, st, delivered, cap) ==
    IN IF st = OVERFLOW THEN [r EXCEPT !.m.ovf = FALSE] ELSE r
 MonStep(name, m, c, st, delivered, cap) == MonStepCx(CtxOf(name), name = "legacy", m, c, st, delivered, cap)
 
+\* ----- runs of plain bytes -------------------------------------------------------------
+\* A run is a sequence of bytes none of which is one of the six context bytes, for each of which the receiver reported status 0
+\* (the driver merges such bytes into one event so that frames of tens of kilobytes are judged in linear time).  MonRunCx is the
+\* monitor folded over the run in closed form; GstuffMC.tla checks it against the byte-by-byte fold (invariant MonRunSame).
+Plain(cx, c) == c \notin {cx.START, cx.STOP, cx.STUB, cx.SSTART, cx.SSTOP, cx.SSTUB}
+MonRunCx(cx, legacy, m0, bytes, cap) ==
+   IF bytes = <<>> THEN m0
+   ELSE LET m1 == MonStepCx(cx, legacy, m0, bytes[1], 0, <<>>, cap).m         \* the first byte may follow an escape byte
+            rest == SubSeq(bytes, 2, Len(bytes))
+            active == m1.open \/ (cx.START = cx.STOP /\ legacy)
+        IN IF ~active \/ m1.bad \/ rest = <<>> THEN m1
+           ELSE LET room == (cap - 1) - Len(m1.acc) IN
+                IF Len(rest) <= room THEN [m1 EXCEPT !.acc = @ \o rest]
+                ELSE [m1 EXCEPT !.acc = @ \o SubSeq(rest, 1, IF room > 0 THEN room ELSE 0), !.bad = TRUE, !.ovf = TRUE]
+RECURSIVE MonFold(_, _, _, _, _, _)
+MonFold(cx, legacy, m0, bytes, i, cap) == IF i > Len(bytes) THEN m0 ELSE MonFold(cx, legacy, MonStepCx(cx, legacy, m0, bytes[i], 0, <<>>, cap).m, bytes, i + 1, cap)
+
 \* ==================================================================================
 \* Implementation-shaped receivers.  State [state, line, crc]; step returns
 \* [s |-> state', st |-> status, out |-> delivered content or <<>>]
@@ -208,6 +225,18 @@ LegacyStep(cx, s0, c, cap) ==
         ELSE IF c = cx.SSTUB THEN ImplPut(s, cx.STUB, cap)
         ELSE [s |-> [s EXCEPT !.state = 0], st |-> -3, out |-> <<>>]
 
+\* the automaton over a run of plain bytes: [s, allzero] (allzero: every status of the model was 0, as recorded)
+RECURSIVE ImplFold(_, _, _, _, _, _, _)
+ImplFold(cx, legacy, s0, bytes, i, cap, zero) ==
+   IF i > Len(bytes) THEN [s |-> s0, allzero |-> zero]
+   ELSE LET r == IF legacy THEN LegacyStep(cx, s0, bytes[i], cap) ELSE ImplStep(cx, s0, bytes[i], cap)
+        IN ImplFold(cx, legacy, r.s, bytes, i + 1, cap, zero /\ r.st = 0)
+ImplRun(cx, legacy, s0, bytes, cap) ==
+   LET s1 == IF legacy /\ s0.state = 0 THEN Fresh(s0, 1) ELSE s0 IN
+   IF bytes = <<>> THEN [s |-> s0, allzero |-> TRUE]
+   ELSE IF s1.state = 1 /\ Len(s1.line) + Len(bytes) <= cap - 1
+   THEN [s |-> [s1 EXCEPT !.line = @ \o bytes, !.crc = Crc8(s1.crc, bytes)], allzero |-> TRUE]
+   ELSE ImplFold(cx, legacy, s0, bytes, 1, cap, TRUE)
 RecvStepCx(cx, legacy, s, c, cap) == IF legacy THEN LegacyStep(cx, s, c, cap) ELSE ImplStep(cx, s, c, cap)
 RecvStep(name, s, c, cap) == RecvStepCx(CtxOf(name), name = "legacy", s, c, cap)
 =============================================================================
